@@ -25,38 +25,51 @@ def main():
               mesh.edge_mesh.dual_edge_lengths, mesh.edge_mesh.edge_lengths, mesh.edge_mesh.centers, mesh.edge_mesh.boundary_edge_indices):
         a = np.ascontiguousarray(a)
         hm.update(str(a.dtype).encode() + str(a.shape).encode() + a.tobytes())
-    opts = build.make_options(spec["options"], dev, output_file=out_name)
-    solver = build.make_solver(dev, opts, applied_vector_potential=build.make_vector_potential(spec["field"], dev, opts.field_units, opts.solve_time),
-                               terminal_currents=build.make_currents(spec["currents"], opts.solve_time),
-                               disorder_epsilon=build.make_epsilon(spec.get("epsilon")))
+    A = build.make_vector_potential(spec["field"], dev, build.make_options(spec["options"], dev).field_units, build.make_options(spec["options"], dev).solve_time)
+    eps = build.make_epsilon(spec.get("epsilon"))
+
+    def run(name):
+        opts = build.make_options(spec["options"], dev, output_file=name)
+        solver = build.make_solver(dev, opts, applied_vector_potential=A, terminal_currents=build.make_currents(spec["currents"], opts.solve_time),
+                                   disorder_epsilon=eps)
+        return solver.solve()
+
+    def digest(path):
+        hf = hashlib.sha256()
+        frames = []
+        with h5py.File(path, "r") as f:
+            for key in sorted(f["data"].keys(), key=int):
+                g = f["data"][key]
+                h1 = hashlib.sha256()
+                for a in sorted(g.attrs):
+                    if a == "timestamp":
+                        continue
+                    h1.update(a.encode() + repr(np.asarray(g.attrs[a]).tolist()).encode())
+
+                def visit(name, obj, h1=h1):
+                    if isinstance(obj, h5py.Dataset):
+                        arr = np.ascontiguousarray(obj[()])
+                        h1.update(name.encode() + str(arr.dtype).encode() + str(arr.shape).encode() + arr.tobytes())
+
+                g.visititems(visit)
+                frames.append(h1.hexdigest()[:16])
+                hf.update(h1.digest())
+            for name in sorted(f):
+                if isinstance(f[name], h5py.Dataset):
+                    arr = np.ascontiguousarray(f[name][()])
+                    hf.update(name.encode() + arr.tobytes())
+        return hf.hexdigest(), frames
+
     try:
-        sol = solver.solve()
+        sol = run(out_name)
     except RuntimeError as exc:
         print(json.dumps(dict(status="refused", message=str(exc)[:80], mesh=hm.hexdigest())))
         return
-    hf = hashlib.sha256()
-    frames = []
-    with h5py.File(sol.path, "r") as f:
-        for key in sorted(f["data"].keys(), key=int):
-            g = f["data"][key]
-            h1 = hashlib.sha256()
-            for a in sorted(g.attrs):
-                if a == "timestamp":
-                    continue
-                h1.update(a.encode() + repr(np.asarray(g.attrs[a]).tolist()).encode())
-
-            def visit(name, obj, h1=h1):
-                if isinstance(obj, h5py.Dataset):
-                    arr = np.ascontiguousarray(obj[()])
-                    h1.update(name.encode() + str(arr.dtype).encode() + str(arr.shape).encode() + arr.tobytes())
-
-            g.visititems(visit)
-            frames.append(h1.hexdigest()[:16])
-            hf.update(h1.digest())
-        for name in sorted(f):
-            if isinstance(f[name], h5py.Dataset):
-                arr = np.ascontiguousarray(f[name][()])
-                hf.update(name.encode() + arr.tobytes())
+    file_digest, frames = digest(sol.path)
+    # the same simulation once more in the same process, with the same device and parameter objects, to another file
+    again = None
+    if len(sys.argv) > 3 and sys.argv[3] == "repeat":
+        again = digest(run("again_" + os.path.basename(out_name)).path)[0]
     # post-processing through the parallel kernels
     pts = np.array([[0.1, 0.2, 1.0], [-0.7, 0.4, 0.5], [1.3, -0.2, -0.8]]) * spec["device"]["layer"]["xi"] * 3
     hp = hashlib.sha256()
@@ -64,7 +77,7 @@ def main():
     Avec = sol.vector_potential_at_position(pts, units="T * m", with_units=False)
     hp.update(np.ascontiguousarray(B).tobytes() + np.ascontiguousarray(Avec).tobytes())
     hp.update(np.ascontiguousarray(sol.dynamics.dt).tobytes())
-    print(json.dumps(dict(status="ok", mesh=hm.hexdigest(), file=hf.hexdigest(), frames=frames, post=hp.hexdigest(),
+    print(json.dumps(dict(status="ok", mesh=hm.hexdigest(), file=file_digest, again=again, frames=frames, post=hp.hexdigest(),
                           nframes=len(frames), nsteps=int(len(sol.dynamics.dt)), threads=os.environ.get("NUMBA_NUM_THREADS"))))
 
 
